@@ -11,6 +11,13 @@ NORMALISATIONS applied before any shape is matched (translator/c14_norm.py; gene
   * a call of a helper defined in the same module / class (`h(..)`, `self.h(..)`, `Charge.h(..)`, `cls.h(..)`,
     static / class / instance method) whose body is itself straight-line is replaced by its returned expression with
     parameters bound to the arguments (positional / keyword / literal defaults); other calls are left for the matcher
+  * call shapes (round 2d): `f(*(a, b))` == `f(a, b)`; `f(**{"k": v})` / `f(**dict(k=v))` (also through a local bound
+    to the display; a display that is updated in place fails closed) == `f(k=v)`; `functools.partial(g, a, k=v)(b, m=w)`
+    (recognised by its import, through any local name) == `g(a, b, k=v, m=w)`
+  * create_charges (round 2d): the column mapping may be a dict display, `dict(k=v, ..)` or
+    `dict(zip(KEYS, VALUES[, strict=..]))` with tuple / list displays of equal length; names in it are resolved through
+    single-assignment locals and module-level literal constants (the key tuple may live at module level); names bound
+    by a match capture, walrus, loop, `with`, `except`, import, nested def are opaque
   * the mask recognises "the first / second index array" by what it COMPUTES (it translates to the same integral
     Gallina expression), not by its name, so it may be built before the `.astype(int)`, in named pieces, by a helper
   * the kernel: `enumerate`, `range(len(V))`, `range(0, len(V), 1)`, `range(V.size)`, `range(V.shape[0])`, manual
